@@ -230,6 +230,42 @@ cloneable_trops!(dyn Cloneable + Send + Sync, "csy");
 // ---------------------------------------------------------------------------------
 
 /// An owning AnyValue whose static type is unknown (erased arm), reporting `ty`.
+/// `src.clone_empty_in(<NewM>)` held in the caller's frame: what it reports, `k` pushes of fresh values, the
+/// contents read back through the typed view, a whole-vector clone dropped at once (Cloneable constraint sets
+/// only), one pop dropped, the length, and the drop of the vector (also when one of the calls unwinds).
+fn clone_in_probe<Tr: ?Sized + TrOps, M: MemBuilder, NewM: MemBuilder + Default, T: Elem + SatisfyTraits<Tr>>(
+    src: &AnyVec<Tr, M>, k: usize,
+) -> Vec<u64> {
+    // the clone is dropped inside a library frame on every path (also when one of the calls below unwinds), so that
+    // the release of its storage is seen by the instrumented allocator
+    struct LibDrop<V>(Option<V>);
+    impl<V> Drop for LibDrop<V> {
+        fn drop(&mut self) { let v = self.0.take(); lib!(drop(v)); }
+    }
+    let mut ret: Vec<u64> = Vec::with_capacity(16);
+    let mut guard = LibDrop(Some(lib!(src.clone_empty_in(NewM::default()))));
+    let c: &mut AnyVec<Tr, NewM> = guard.0.as_mut().unwrap();
+    ret.push(c.len() as u64);
+    ret.push(c.capacity() as u64);
+    for _ in 0..k {
+        let x = AnyValueWrapper::new(T::new());
+        lib!(c.push(x));
+    }
+    for x in c.downcast_ref::<T>().expect("typed view of the clone").as_slice() {
+        ret.push(x.token());
+    }
+    if Tr::CL {
+        let c2 = lib!(Tr::clone_vec(&*c));
+        lib!(drop(c2));
+    }
+    if let Some(h) = lib!(c.pop()) {
+        lib!(drop(h));
+    }
+    ret.push(c.len() as u64);
+    drop(guard);
+    ret
+}
+
 pub struct HBox<T: Elem> {
     v: ManuallyDrop<T>,
     ty: TypeId,
@@ -849,7 +885,20 @@ impl<Tr: ?Sized + TrOps, M: BackOps> World<Tr, M> {
                 self.slot(*d);
                 self.vecs[*d] = Some(c);
             }
-            Op::CloneEmptyIn(..) => panic!("clone_empty_in is run by its own family"),
+            Op::CloneEmptyIn(..) => panic!("clone_empty_in into a slot of the world: not expressible (the backend type differs); see clone_in"),
+            Op::CloneIn(v, bk, k) => {
+                let src: &AnyVec<Tr, M> = self.vecs[*v].as_ref().expect("vector does not exist");
+                let r = match bk {
+                    #[cfg(feature = "heap")]
+                    Bk::Heap => clone_in_probe::<Tr, M, any_vec::mem::Heap, T>(src, *k),
+                    Bk::Stack(512) => clone_in_probe::<Tr, M, any_vec::mem::Stack<512>, T>(src, *k),
+                    Bk::StackN(3, 512) => clone_in_probe::<Tr, M, any_vec::mem::StackN<3, 512>, T>(src, *k),
+                    Bk::Empty => clone_in_probe::<Tr, M, any_vec::mem::Empty, T>(src, *k),
+                    Bk::Reloc(2) => clone_in_probe::<Tr, M, crate::reloc::Reloc<2>, T>(src, *k),
+                    _ => panic!("clone_in: target backend {:?} is not instantiated in the harness", bk),
+                };
+                ret.extend(r);
+            }
             Op::Reserve(v, n, ty) => { let vv = self.v(*v); lib!(M::reserve::<Tr, T>(vv, *n, *ty)) }
             Op::ReserveExact(v, n, ty) => { let vv = self.v(*v); lib!(M::reserve_exact::<Tr, T>(vv, *n, *ty)) }
             Op::ShrinkToFit(v, ty) => { let vv = self.v(*v); lib!(M::shrink_to_fit::<Tr, T>(vv, *ty)) }
